@@ -71,6 +71,7 @@ func simpleDoc(r *sim.Rand) pdfw.DocSpec {
 	}
 	sp.BlankPages = r.Pct(30)
 	sp.Headings = r.Pct(40)
+	sp.Superscripts = r.Pct(25)
 	if r.Pct(35) {
 		// several fonts that differ only in their encoding, written inline and mapped to the
 		// same resource names differently on every page: per-page results then only compose
